@@ -30,7 +30,7 @@ def convertEntries(entries):
     return result
 
 
-def getCollectionValue(collection, what):
+def getCollectionValue(collection, what, pos=None):
     if collection.isList():
         return collection.value
     elif collection.isSet():
@@ -43,7 +43,7 @@ def getCollectionValue(collection, what):
         return convertEntries({k: collection.value[k]
                                for k in sorted(collection.value.keys())})
     elif collection.isObject() and what == "values":
-        return collection.value.values()
+        return list(collection.value.values())
     elif collection.isObject() and what == "entries":
         return convertEntries(collection.value)
     elif collection.isObject():
@@ -51,7 +51,11 @@ def getCollectionValue(collection, what):
     elif collection.isString():
         return [ch for ch in collection.value]
     else:
-        return None
+        raise CklRuntimeError(
+            ValueString("ERROR"),
+            f"Cannot iterate over {collection.type()}",
+            pos,
+        )
 
 
 def getIndexValue(idx, pos):
@@ -1243,7 +1247,7 @@ class NodeListComprehension:
         result = ValueList()
         localEnv = environment.newEnv()
         lst = self.listExpr.evaluate(environment)
-        values = getCollectionValue(lst, self.what)
+        values = getCollectionValue(lst, self.what, self.pos)
         for listValue in values:
             localEnv.put(self.identifier, listValue)
             value = self.valueExpr.evaluate(localEnv)
@@ -1322,8 +1326,8 @@ class NodeListComprehensionParallel:
         localEnv = environment.newEnv()
         list1 = self.listExpr1.evaluate(environment)
         list2 = self.listExpr2.evaluate(environment)
-        values1 = getCollectionValue(list1, self.what1)
-        values2 = getCollectionValue(list2, self.what2)
+        values1 = getCollectionValue(list1, self.what1, self.pos)
+        values2 = getCollectionValue(list2, self.what2, self.pos)
         for i in range(max(len(values1), len(values2))):
             listValue1 = values1[i] if i < len(values1) else None
             listValue2 = values2[i] if i < len(values2) else None
@@ -1413,8 +1417,8 @@ class NodeListComprehensionProduct:
         localEnv = environment.newEnv()
         list1 = self.listExpr1.evaluate(environment)
         list2 = self.listExpr2.evaluate(environment)
-        values1 = getCollectionValue(list1, self.what1)
-        values2 = getCollectionValue(list2, self.what2)
+        values1 = getCollectionValue(list1, self.what1, self.pos)
+        values2 = getCollectionValue(list2, self.what2, self.pos)
         for listValue1 in values1:
             localEnv.put(self.identifier1, listValue1)
             for listValue2 in values2:
@@ -1546,7 +1550,7 @@ class NodeMapComprehension:
         result = ValueMap()
         localEnv = environment.newEnv()
         lst = self.listExpr.evaluate(environment)
-        values = getCollectionValue(lst, self.what)
+        values = getCollectionValue(lst, self.what, self.pos)
         for listValue in values:
             localEnv.put(self.identifier, listValue)
             key = self.keyExpr.evaluate(localEnv)
@@ -1907,7 +1911,7 @@ class NodeSetComprehension:
         result = ValueSet()
         localEnv = environment.newEnv()
         lst = self.listExpr.evaluate(environment)
-        values = getCollectionValue(lst, self.what)
+        values = getCollectionValue(lst, self.what, self.pos)
         for listValue in values:
             localEnv.put(self.identifier, listValue)
             value = self.valueExpr.evaluate(localEnv)
@@ -1977,8 +1981,8 @@ class NodeSetComprehensionParallel:
         localEnv = environment.newEnv()
         list1 = self.listExpr1.evaluate(environment)
         list2 = self.listExpr2.evaluate(environment)
-        values1 = getCollectionValue(list1, self.what1)
-        values2 = getCollectionValue(list2, self.what2)
+        values1 = getCollectionValue(list1, self.what1, self.pos)
+        values2 = getCollectionValue(list2, self.what2, self.pos)
         for i in range(max(len(values1), len(values2))):
             localEnv.put(
                 self.identifier1, values1[i] if i < len(values1) else NULL
@@ -2064,8 +2068,8 @@ class NodeSetComprehensionProduct:
         localEnv = environment.newEnv()
         list1 = self.listExpr1.evaluate(environment)
         list2 = self.listExpr2.evaluate(environment)
-        values1 = getCollectionValue(list1, self.what1)
-        values2 = getCollectionValue(list2, self.what2)
+        values1 = getCollectionValue(list1, self.what1, self.pos)
+        values2 = getCollectionValue(list2, self.what2, self.pos)
         for value1 in values1:
             localEnv.put(self.identifier1, value1)
             for value2 in values2:
